@@ -656,7 +656,9 @@ namespace via
         for (auto& elem : connection_data)
           elem.second->disconnect();
 #else
-        for (auto& elem : http_connections_)
+        // Note: disconnect may erase the connection from http_connections_
+        auto connection_data(http_connections_);
+        for (auto& elem : connection_data)
           elem.second->disconnect();
 #endif
       }
